@@ -209,3 +209,124 @@ pub mod sched {
         }
     }
 }
+
+pub use crate::tables::table::verif_hooks::{BlockDump, TableAnswer, TableCursor, TableDump};
+
+fn to_internal_key(key: &IKey) -> Result<crate::key::InternalKey, String> {
+    use std::convert::TryFrom;
+    let operation = crate::Operation::try_from(key.2).map_err(|e| e.to_string())?;
+    Ok(crate::key::InternalKey::new(key.0.clone(), key.1, operation))
+}
+
+/// `find_shortest_separator` on byte strings.
+pub fn bytes_separator(smaller: &[u8], greater: &[u8]) -> Vec<u8> {
+    crate::utils::bytes::BinarySeparable::find_shortest_separator(smaller, greater)
+}
+
+/// `find_shortest_successor` on byte strings.
+pub fn bytes_successor(value: &[u8]) -> Vec<u8> {
+    crate::utils::bytes::BinarySeparable::find_shortest_successor(value)
+}
+
+/// `find_shortest_separator` on internal keys.
+pub fn ikey_separator(smaller: &IKey, greater: &IKey) -> Result<IKey, String> {
+    use std::convert::TryFrom;
+    let smaller = to_internal_key(smaller)?;
+    let greater = to_internal_key(greater)?;
+    let raw = crate::utils::bytes::BinarySeparable::find_shortest_separator(&smaller, &greater);
+    crate::key::InternalKey::try_from(raw)
+        .map(|key| ikey_tuple(&key))
+        .map_err(|e| e.to_string())
+}
+
+/// `find_shortest_successor` on internal keys.
+pub fn ikey_successor(value: &IKey) -> Result<IKey, String> {
+    use std::convert::TryFrom;
+    let value = to_internal_key(value)?;
+    let raw = crate::utils::bytes::BinarySeparable::find_shortest_successor(&value);
+    crate::key::InternalKey::try_from(raw)
+        .map(|key| ikey_tuple(&key))
+        .map_err(|e| e.to_string())
+}
+
+/// `InternalKey::cmp`
+pub fn ikey_cmp(a: &IKey, b: &IKey) -> Result<std::cmp::Ordering, String> {
+    Ok(to_internal_key(a)?.cmp(&to_internal_key(b)?))
+}
+
+/// Serialize a block of internal-key entries with the given restart interval.
+pub fn block_encode(restart_interval: usize, entries: &[Entry]) -> Result<Vec<u8>, String> {
+    use crate::tables::verif_exports::BlockBuilder;
+    let mut builder: BlockBuilder<crate::key::InternalKey> = BlockBuilder::new(restart_interval);
+    for (user_key, seq, op, value) in entries {
+        let key = to_internal_key(&(user_key.clone(), *seq, *op))?;
+        builder.add_entry(std::rc::Rc::new(key), value);
+    }
+    Ok(builder.finalize())
+}
+
+/// Parse a block of internal-key entries.
+pub fn block_decode(raw: Vec<u8>) -> Result<Vec<Entry>, String> {
+    use crate::iterator::RainDbIterator;
+    let reader: crate::tables::block::DataBlockReader =
+        crate::tables::block::BlockReader::new(raw).map_err(|e| e.to_string())?;
+    let mut entries = vec![];
+    let mut iter = reader.iter();
+    iter.seek_to_first().map_err(|e| e.to_string())?;
+    while iter.is_valid() {
+        let (key, value) = iter.current().unwrap();
+        let (user_key, seq, op) = ikey_tuple(key);
+        entries.push((user_key, seq, op, value.clone()));
+        iter.next();
+    }
+    Ok(entries)
+}
+
+/// Build table file `file_number` (under `options.db_path()/data`) from sorted entries.
+pub fn table_build(
+    options: &crate::DbOptions,
+    file_number: u64,
+    entries: &[Entry],
+) -> Result<u64, String> {
+    let mut builder = crate::tables::TableBuilder::new(options.clone(), file_number)
+        .map_err(|e| e.to_string())?;
+    for (user_key, seq, op, value) in entries {
+        let key = to_internal_key(&(user_key.clone(), *seq, *op))?;
+        builder
+            .add_entry(std::rc::Rc::new(key), value)
+            .map_err(|e| e.to_string())?;
+    }
+    builder.finalize().map_err(|e| e.to_string())?;
+    Ok(builder.file_size())
+}
+
+/// An opened table file.
+pub struct VerifTable {
+    table: Arc<crate::tables::Table>,
+}
+
+/// Open table file `file_number` of the database directory in `options`.
+pub fn table_open(options: &crate::DbOptions, file_number: u64) -> Result<VerifTable, String> {
+    let handler = crate::file_names::FileNameHandler::new(options.db_path().to_string());
+    let path = handler.get_table_file_path(file_number);
+    let file = options
+        .filesystem_provider()
+        .open_file(&path)
+        .map_err(|e| e.to_string())?;
+    let table = crate::tables::Table::open(options.clone(), file).map_err(|e| e.to_string())?;
+    Ok(VerifTable {
+        table: Arc::new(table),
+    })
+}
+
+impl VerifTable {
+    pub fn dump(&self) -> Result<TableDump, String> {
+        self.table.verif_dump()
+    }
+    pub fn get(&self, user_key: &[u8], sequence: u64) -> TableAnswer {
+        self.table.verif_get(user_key, sequence)
+    }
+    pub fn cursor(&self) -> TableCursor {
+        TableCursor::new(Arc::clone(&self.table))
+    }
+}
